@@ -518,7 +518,7 @@ func c02Prop(c *Ctx) {
 
 func init() {
 	props["C02"] = c02Prop
-	corrs["C02"] = func(c *Ctx) { linkCorr(c); restoreCorr(c) }
+	corrs["C02"] = func(c *Ctx) { linkCorr(c); restoreCorr(c); fragCorr(c) }
 	replays["C02"] = func(c *Ctx, raw json.RawMessage) (bool, string) {
 		var in c02Input
 		if err := json.Unmarshal(raw, &in); err != nil || in.Kind == "" {
